@@ -612,6 +612,29 @@ class Gen:
         self.do({'op': 'apply', 'r': r, 'sets': [f], 'S': d, 'start': c_, 'end': self.rng.randint(b_, n), 'top': self.rng.random() < 0.7})
         self.do({'op': 'find_settings', 'r': r, 'sets': [f], 'S': d, 'start': self.rng.choice([0, a_]), 'end': None, 'reverse': self.rng.random() < 0.3})
 
+    def g_find_pair(self):
+        """Two different settings on overlapping ranges (either may end first), searched for together in both listing
+        orders, forwards and backwards, over the whole text and over ranges that end exactly at a change point."""
+        r = self.pick('S')
+        if not r or self.length(r) < 4:
+            return
+        n = self.length(r)
+        singles = [c for c in PAL_CORE + PAL_MORE if len(c[1]) == 1]
+        (f1, d1), (f2, d2) = self.rng.sample(singles, 2)
+        a_ = self.rng.randint(0, n - 3)
+        b_ = self.rng.randint(a_ + 2, n - 1)
+        c_ = self.rng.randint(a_, b_ - 1)
+        e_ = self.rng.randint(b_ - 1, n)
+        self.do({'op': 'apply', 'r': r, 'sets': [f1], 'S': d1, 'start': a_, 'end': b_, 'top': self.rng.random() < 0.5})
+        self.do({'op': 'apply', 'r': r, 'sets': [f2], 'S': d2, 'start': c_, 'end': e_, 'top': self.rng.random() < 0.5})
+        for (fs, ds) in (([f1, f2], d1 + d2), ([f2, f1], d2 + d1)):
+            end = self.rng.choice([None, None, b_, e_, b_ - n, n])
+            self.do({'op': 'find_settings', 'r': r, 'sets': fs, 'S': ds, 'start': self.rng.choice([0, a_, c_]), 'end': end,
+                     'reverse': self.rng.random() < 0.3})
+        self.do({'op': 'find_settings', 'r': r, 'sets': [f1], 'S': d1, 'start': 0, 'end': b_, 'reverse': self.rng.random() < 0.3})
+        self.do({'op': 'find_settings', 'r': r, 'sets': [f2], 'S': d2, 'start': 0, 'end': self.rng.choice([b_, c_]),
+                 'reverse': self.rng.random() < 0.3})
+
     def g_shrink_then_find(self):
         """Query, shorten the object in place from the left (clip / lstrip / removeprefix / replace), query again."""
         r = self.pick('S')
@@ -1446,7 +1469,7 @@ PROFILES = {
                 partition=2.5, assign_str=1.5, apply=1.5, remove=0.5, add=0.5, qmq=1.2, crossed_stops=0.5, cut_tail=0.8, esc_in_base=1.0),
     'C12': dict(nonuniform=2, new=1, pad=5, pad_nested=1.5, pad_pair=1.5, pad_huge=0.2, fmt_huge=0.1, fmt=5, apply=2, remove=0.5, slice=0.5, add=0.5, qmq=1.0, crossed_stops=0.4),
     'C16': weights(matching=6, apply_match=1.0, apply=3, remove=1, slice=0.5, render=0.2, case=1.5, copy=0.3, match_case_match=1.5, matching_adjacent=1.5),
-    'C17': weights(find_settings=5, settings_at=2.5, apply=4, remove=2, slice=0.5, add=0.7, iadd=0.7, pad=1.2, assign_str=0.6, grow_then_slice=1.5, find_overlap=1.5, shrink_then_find=1.5,
+    'C17': weights(find_settings=5, settings_at=2.5, apply=4, remove=2, slice=0.5, add=0.7, iadd=0.7, pad=1.2, assign_str=0.6, grow_then_slice=1.5, find_overlap=1.5, find_pair=2.5, shrink_then_find=1.5,
                    strip=0.5, new_from=0.8),
     'C04': weights(iter_twice=1.2, slice=5, index=2, clip=2, iter=1.5, iter_join=0.6, apply=3, remove=1.5, pad=0.8, assign_str=0.6, strip=0.4,
                    same_form_nested=1.2, grow_then_slice=1.2),
